@@ -133,7 +133,13 @@ const NO_DEFAULT_TEXT: &str = "the asset has neither extension nor default value
 
 fn classify(e: &(dyn std::error::Error + 'static)) -> (Class, Option<io::ErrorKind>) {
     if let Some(io) = e.downcast_ref::<io::Error>() {
-        return if io.kind() == io::ErrorKind::NotFound { (Class::NotFound, Some(io.kind())) } else { (Class::IoOther, Some(io.kind())) };
+        // UnexpectedEof is never injected as a source fault: it can only be the *decode* error of
+        // the read_exact loader family, and must be ranked as a decode error although it is an io::Error
+        return match io.kind() {
+            io::ErrorKind::NotFound => (Class::NotFound, Some(io.kind())),
+            io::ErrorKind::UnexpectedEof => (Class::Decode, Some(io.kind())),
+            _ => (Class::IoOther, Some(io.kind())),
+        };
     }
     if e.is::<std::num::ParseIntError>() || e.is::<std::str::Utf8Error>() || e.is::<std::string::FromUtf8Error>() {
         return (Class::Decode, None);
@@ -180,7 +186,7 @@ fn dv_log(id: &SharedString, e: &(dyn std::error::Error + 'static)) {
 }
 
 // ---------------------------------------------------------------------------------------------
-// asset types: 5 loader families x extension lists of length 0..3 x {no override, default_value
+// asset types: 6 loader families x extension lists of length 0..3 x {no override, default_value
 // returns Ok(marker), default_value returns Err(other)}
 
 const fn exts(k: usize) -> &'static [&'static str] {
@@ -248,14 +254,30 @@ fam!(BN, BD, Vec<u8>, loader::BytesLoader, b"<default>".to_vec(), |v| Cow::Borro
 fam!(XN, XD, SharedString, loader::StringLoader, SharedString::from("<default>"), |v| Cow::Borrowed(v.as_bytes()));
 fam!(YN, YD, SharedBytes, loader::BytesLoader, SharedBytes::from_slice(b"<default>"), |v| Cow::Borrowed(&v[..]));
 
-const FAMS: [&str; 5] = ["i32/ParseLoader", "String/StringLoader", "Vec<u8>/BytesLoader", "SharedString/StringLoader", "SharedBytes/BytesLoader"];
+/// A loader whose decode failure IS a plain `std::io::Error` (kind UnexpectedEof, from
+/// `read_exact`): a big-endian u32 in the first four bytes, trailing bytes ignored.
+pub struct ReadExactLoader;
+impl loader::Loader<u32> for ReadExactLoader {
+    fn load(content: Cow<[u8]>, _ext: &str) -> Result<u32, BoxedError> {
+        use std::io::Read;
+        let mut buf = [0u8; 4];
+        let mut r: &[u8] = &content;
+        r.read_exact(&mut buf)?;
+        Ok(u32::from_be_bytes(buf))
+    }
+}
+fam!(EN, ED, u32, ReadExactLoader, u32::MAX, |v| Cow::Owned(v.to_string().into_bytes()));
+
+const FAMS: [&str; 6] = ["i32/ParseLoader", "String/StringLoader", "Vec<u8>/BytesLoader", "SharedString/StringLoader", "SharedBytes/BytesLoader", "u32/ReadExactLoader(io-error-on-decode)"];
 const DVS: [&str; 3] = ["no-default", "default=Ok", "default=Err"];
 fn fam_has_undec(fam: u8) -> bool {
-    fam == 0 || fam == 1 || fam == 3
+    fam == 0 || fam == 1 || fam == 3 || fam == 5
 }
 fn marker(fam: u8) -> Vec<u8> {
     if fam == 0 {
         b"-1".to_vec()
+    } else if fam == 5 {
+        u32::MAX.to_string().into_bytes()
     } else {
         b"<default>".to_vec()
     }
@@ -265,6 +287,7 @@ fn style_names(fam: u8) -> &'static [&'static str] {
     match fam {
         0 => &STYLES[0][..3],
         1 | 3 => &STYLES[1][..],
+        5 => &["4-bytes", "4-bytes+trailing"],
         _ => &STYLES[2][..],
     }
 }
@@ -273,6 +296,11 @@ fn style_names(fam: u8) -> &'static [&'static str] {
 fn content(fam: u8, style: u8, i: usize) -> (Vec<u8>, Vec<u8>, Vec<u8>) {
     let d = i as u8;
     match fam {
+        5 => match style {
+            // too short for read_exact: 2 bytes / empty
+            0 => (vec![0, 0, 1, d], (256 + i).to_string().into_bytes(), vec![7, 7]),
+            _ => (vec![0, 0, 2, d, 0xff, 0xfe], (512 + i).to_string().into_bytes(), vec![]),
+        },
         0 => match style {
             0 => (format!("1{i}").into_bytes(), format!("1{i}").into_bytes(), b"zz".to_vec()),
             1 => (format!(" 2{i}\n").into_bytes(), format!("2{i}").into_bytes(), vec![0xff, 0xfe]),
@@ -833,7 +861,8 @@ fn dispatch_a(u: &UnitA, t: &Tier, only: Option<&CaseA>, ctx: &mut Ctx) {
         1 => by_dv!(u.dv, u.n, run_unit_a, SN, SD, (u, t, only, ctx)),
         2 => by_dv!(u.dv, u.n, run_unit_a, BN, BD, (u, t, only, ctx)),
         3 => by_dv!(u.dv, u.n, run_unit_a, XN, XD, (u, t, only, ctx)),
-        _ => by_dv!(u.dv, u.n, run_unit_a, YN, YD, (u, t, only, ctx)),
+        4 => by_dv!(u.dv, u.n, run_unit_a, YN, YD, (u, t, only, ctx)),
+        _ => by_dv!(u.dv, u.n, run_unit_a, EN, ED, (u, t, only, ctx)),
     }
 }
 
@@ -1226,9 +1255,9 @@ fn units(args: &Args) -> Vec<Unit> {
     let thorough = args.thorough();
     let mut v = vec![];
     for n in 0..=3usize {
-        for fam in 0..5u8 {
+        for fam in 0..6u8 {
             // the SharedString / SharedBytes loader paths get the lists of length <= 2
-            if fam >= 3 && n > 2 {
+            if (fam == 3 || fam == 4) && n > 2 {
                 continue;
             }
             for dv in 0..3u8 {
@@ -1279,7 +1308,7 @@ pub fn plan(args: &Args) -> Plan<'_> {
         run: Box::new(move |i, ctx| {
             if ctx.res.bound.is_empty() {
                 ctx.res.bound = format!(
-                    "5 loader families x extension lists of length 0..3 (SharedString/SharedBytes: 0..2) x {{no default_value, Ok(marker), Err(other)}} x content styles (plain, whitespace-padded, empty, 64 KiB{}, non-UTF-8) x every assignment of {} to the extensions x delivery {{Slice, Buffer, Owned}} x {{load, load_owned, load_expect}} x 4 front-ends x every edit sequence of length <= 2 over {{make ext i ok, break ext i{}}}; compound chains: every depth 1..3 x {{load, load_owned, load-then-own-error}}^depth x 7 leaf states x the same calls and edit sequences",
+                    "6 loader families (incl. one whose decode error is a std::io::Error of kind UnexpectedEof) x extension lists of length 0..3 (SharedString/SharedBytes: 0..2) x {{no default_value, Ok(marker), Err(other)}} x content styles (plain, whitespace-padded, empty, 64 KiB{}, non-UTF-8) x every assignment of {} to the extensions x delivery {{Slice, Buffer, Owned}} x {{load, load_owned, load_expect}} x 4 front-ends x every edit sequence of length <= 2 over {{make ext i ok, break ext i{}}}; compound chains: every depth 1..3 x {{load, load_owned, load-then-own-error}}^depth x 7 leaf states x the same calls and edit sequences",
                     if tier.thorough { "" } else { " (lists <= 2)" },
                     if tier.thorough { "{ok, not-found, undecodable, PermissionDenied, Interrupted, InvalidData, Other}" } else { "{ok, not-found, undecodable, I/O-other (kind per extension rotated by the seed)}" },
                     if tier.thorough { " as not-found / undecodable / I/O-other" } else { " as it was" }
@@ -1313,7 +1342,7 @@ pub fn replay(case: &Value, ctx: &mut Ctx) {
         dispatch_c(&u, &tier, Some(&c), ctx);
     } else {
         let states: Vec<u8> = case["states"].as_array().map(|a| a.iter().map(|x| (x.as_u64().unwrap_or(0) as u8).min(6)).collect()).unwrap_or_default();
-        let fam = (g("fam") as u8).min(4);
+        let fam = (g("fam") as u8).min(5);
         let u = UnitA { fam, n: states.len().min(3), dv: (g("dv") as u8).min(2), style: (g("style") as u8).min(style_names(fam).len() as u8 - 1), states };
         if edits.iter().any(|(i, _)| *i >= u.n) || u.states.len() > 3 {
             eprintln!("MACHINERY: bad edit / state list in replay file");
